@@ -19,7 +19,11 @@ import pandas as pd
 
 def main():
     warnings.simplefilter('ignore')
-    os.chdir(tempfile.mkdtemp(prefix='c07_stab_'))
+    scratch = tempfile.mkdtemp(prefix='c07_stab_')
+    os.chdir(scratch)
+    import atexit
+    import shutil
+    atexit.register(lambda: (os.chdir('/'), shutil.rmtree(scratch, ignore_errors=True)))
     logging.getLogger('biogeme').setLevel(logging.ERROR)
     import biogeme.database as db
     from biogeme import models
